@@ -462,7 +462,7 @@ def flat_roundtrip(sx, p):
     if share == 'b[0] is b[1]':
         bs[1] = bs[0]
         bv[1], bw[1] = bv[0], bw[0]
-    tags = [sx.int('t%d' % i, lo, hi) for i in range(nn)]
+    tags = [sx.int('t%d' % i, 0, 9) for i in range(nn)]          # (one-digit: keeps the thorough tier inside its path budget)
     o = Flat(a=a, s=s, inner=Inner(v=iv, tags=tags if nn else None), b=bs if nb else None, nums=nums if nn else None)
     flat = prot.object_to_simple_dict(Flat, o, subinst_eater=_eater)
     doc = {}
